@@ -38,7 +38,7 @@ K1_C08 = ['SdElement.generate_function', 'SdElement.Element.equation.setter', 'S
           'SdElement.Flow.equation.setter', 'SdElement.Constant.equation.setter', 'SdElement.Stock.initial_value.setter',
           'Scenario.reset_cache', 'Model.reset_cache', 'Model.memoize']
 
-K1_C07 = ['SdScenario.__init__', 'SdScenario.configure_settings', 'SdSimulation.__init__', 'SdSimulation.change_runspecs',
+K1_C07 = ['ScenarioManagerSd.add_scenarios', 'SdScenario.__init__', 'SdScenario.configure_settings', 'SdSimulation.__init__', 'SdSimulation.change_runspecs',
           'SdSimulation.change_equation', 'SdSimulation.change_points', 'SdRunner.run_scenario_step']
 _SCEN_ASSUME = ['scenario lookup (ScenarioManagerFactory.get_scenarios) returns live scenario objects owning distinct models (assumed contract)',
                 'SdSimulation.start simulates with the model\'s current run spec (assumed here; its pieces are under contract in C05)',
@@ -55,7 +55,7 @@ PROPS = {
                     'its own model carrying its run spec; the runner writes no scenario setting)',
         assumptions=_SCEN_ASSUME,
         not_decided=['not decided: the file channel (ScenarioManagerFactory.__readScenario, JSON/YAML parsers, base constants spread over files): file-system driven, unverified',
-                     'not decided: add_scenarios base-constant merging and SdRunner._run_scenarios (batch path) -- exercised by the native harness only']),
+                     'not decided: SdRunner._run_scenarios (batch path) -- exercised by the native harness only']),
     'C09': dict(
         mods=['contracts.c07_scenarios'], k1=['SdRunner.run_scenario_step', 'SdSimulation.change_equation', 'SdSimulation.change_runspecs', 'Model.equation',
                                              'SdSimulation.__simulate'],
@@ -69,7 +69,7 @@ PROPS = {
         not_decided=['not decided: bptk.begin_session / session_results re-indexing and the REST handlers as functions (deep dynamic dict code): reached by the native harness only',
                      'not decided: pandas / json agreement of the three batch formats (library code)']),
     'C06': dict(
-        mods=['contracts.c07_scenarios'], k1=['SdRunner.run_scenario_step', 'SdSimulation.change_equation', 'SdSimulation.change_points',
+        mods=['contracts.c07_scenarios'], k1=['ScenarioManagerSd.add_scenarios', 'SdRunner.run_scenario_step', 'SdSimulation.change_equation', 'SdSimulation.change_points',
                                              'SdSimulation.change_runspecs', 'SdScenario.__init__'],
         level='proof', engines=['contracts.c06_clone'],
         harness='verif/native/c09_harness.py', harness_budget=(25, 120),
